@@ -63,14 +63,34 @@ def subsecond_times(out: Outcome, fn, rng, count):
     carrier must give the flags the datetime64[ns] carrier gives."""
     done = 0
     tries = 0
+    import json as _json
+    from engine import ROOT
+    from props.registry import _unjson
+    pinned = []
+    for f in sorted((ROOT / "corpus" / "C15_subsecond").glob("*.json")):
+        d = _json.loads(f.read_text())
+        if d["fn"] == fn:
+            c0 = _unjson(d["case"])
+            c0["fn"] = fn
+            if fn == "atten" and isinstance(c0.get("period"), str):
+                c0["period"] = F(c0["period"])
+            pinned.append(c0)
     while done < count and tries < count * 6:
         tries += 1
-        case = gen.GENERATORS[fn](rng, 8)
+        case = pinned.pop() if pinned else gen.GENERATORS[fn](rng, 8)
+        if "t_ns" in case:
+            t_fixed = case.pop("t_ns")
+        else:
+            t_fixed = None
         n = len(case["t"])
         if n < 2 or any(len(case[k]) != n for k in fx.SERIES_KEYS[fn]) or not std_margin_ok(case):
             continue
         quarters = [rng.choice([0, 250_000_000, 500_000_000, 750_000_000]) for _ in range(n)]
-        t_ns = [int(t) * 1_000_000_000 + q for t, q in zip(case["t"], quarters)]
+        if rng.random() < 0.35:
+            # a clock that runs a constant fraction of a second late: every elapsed time is still a WHOLE number of seconds
+            # (a conversion that is off by a few hundred nanoseconds then sits just below or above a whole second)
+            quarters = [rng.choice([250_000_000, 500_000_000, 750_000_000])] * n
+        t_ns = [int(t) * 1_000_000_000 + q for t, q in zip(case["t"], quarters)] if t_fixed is None else [int(x) for x in t_fixed]
         if any(b <= a for a, b in zip(t_ns, t_ns[1:])):
             continue
         if fn == "climatology" and case["members"] and rng.random() < 0.7:
